@@ -562,7 +562,33 @@ def case_unpriv(c, xz, sd, res, verbose=False):
         fail("cli:mode:broader-when-group-not-copied", f"target mode {tm:04o} with foreign group {st.st_gid} gives access the source mode {mode:04o} ({UID}:{GID}) did not")
 
 
-RUNNERS = {"name": case_name, "meta": case_meta, "seq": case_seq, "unpriv": case_unpriv}
+def case_fileslist(c, xz, sd, res, verbose=False):
+    """Names given through --files / --files0 are file names, never options and never 'standard input' (xz.1: --files)."""
+    names, zero = c["names"], c["zero"]
+    rj = json.dumps(c)
+    for n in names:
+        with open(os.path.join(sd, n), "wb") as f:
+            f.write(PLAIN)
+    sep = b"\0" if zero else b"\n"
+    with open(os.path.join(sd, ".list"), "wb") as f:
+        f.write(sep.join(n.encode() for n in names) + sep)
+    opt = ("--files0=" if zero else "--files=") + ".list"
+    rc, out, err = run_xz(xz, [opt], sd)
+    after = snapshot(sd)
+    res.add("evals"); res.add("cli_fileslist_runs"); res.add("distinct")
+    exp = {".list"} | {n + ".xz" for n in names}
+    if rc != 0 or set(after) != exp or out:
+        res.fails.append(("cli:files-list:compress", f"xz {opt} with names {names}: status {rc}, stdout {len(out)} bytes, files {sorted(after)}, expected {sorted(exp)} ({err.decode(errors='replace').strip()[:120]})", rj)); return
+    with open(os.path.join(sd, ".list"), "wb") as f:
+        f.write(sep.join((n + ".xz").encode() for n in names) + sep)
+    rc, out, err = run_xz(xz, ["-d", opt], sd)
+    after = snapshot(sd)
+    res.add("evals"); res.add("cli_fileslist_runs")
+    if rc != 0 or set(after) != {".list"} | set(names) or out or any(read_file(os.path.join(sd, n)) != PLAIN for n in names if n in after):
+        res.fails.append(("cli:files-list:decompress", f"xz -d {opt} with names {[n + '.xz' for n in names]}: status {rc}, files {sorted(after)} ({err.decode(errors='replace').strip()[:120]})", rj))
+
+
+RUNNERS = {"name": case_name, "meta": case_meta, "seq": case_seq, "unpriv": case_unpriv, "fileslist": case_fileslist}
 
 
 def run_chunk(args):
@@ -615,6 +641,10 @@ def grid_names(tier):
                 cases.append({"t": "name", "name": name, "fmt": fmt, "custom": cu, "dir": True})
                 if len(name) > 3 or "s" in name:
                     cases.append({"t": "name", "name": name, "fmt": fmt, "custom": cu})
+    # names that look like options or like "standard input", given through --files / --files0
+    for names in (["-"], ["--"], ["-d"], ["-", "a"], ["a", "-"], ["--help"], ["-c", "b"], ["-S.x"], [" a"], ["a b"]):
+        for zero in (False, True):
+            cases.append({"t": "fileslist", "names": names, "zero": zero})
     # the same custom suffixes supplied through the environment instead of the command line
     envnames = ["a", "a.s", "as", "s", ".s", "a.xz", "a.tlz", "a.txz", "a.tar", "a.lzma", "-a", "a.s.s"] + ([] if tier == "quick" else [n for n in all_names(2) if n not in (".", "..")])
     for name in envnames:
